@@ -35,6 +35,11 @@ TECHNIQUE = "Lean 4 refinement theorems (dispatch step vs flat partial map, inva
 THEOREMS = THEOREMS + ['Portus.C02.step_refines', 'Portus.C02.history_refines_from', 'Portus.C02.history_refines_flat_map', 'Portus.C02.complete_run_equals_spec', 'Portus.C02.report_reaches_current_handler_only', 'Portus.C02.closed_flow_hears_nothing', 'Portus.C02.Abs_init', 'Portus.C02.loop_calls_eq_hist_calls', 'Portus.C02.loop_refines_flat_map']
 AUDIT_IMPORTS = ['PortusModel.Props.C02History', 'PortusModel.Props.C02Loop']
 
+
+# round 5 additions
+THEOREMS = THEOREMS + ['Portus.C02.wellformed_script_calls_prefix', 'Portus.C02.wellformed_script_calls_eq_spec']
+AUDIT_IMPORTS = list(globals().get('AUDIT_IMPORTS', [])) + ['PortusModel.Props.C02Bytes']
+
 def project(c, r):
     return R.project(r, KEEP)
 
